@@ -1,7 +1,7 @@
 """C15 — MinGenSet and MinSetCover return true optima whenever one exists.
 E3: MinGenSet.__init__ pre-processing == MiscEnc.mgs_preprocess (as sets).
 E1: LP handed to HiGHS for every k tried by MinGenSet.solve == MiscEnc.encode_mgs; LP of MinSetCover == encode_msc.
-E4: the k sequence MinGenSet.solve tries (real statuses and injected inconclusive statuses) == MiscEnc.mgs_loop.
+E4: the k sequence MinGenSet.solve tries (real statuses and injected inconclusive statuses) == MiscEnc.mgsm_loop.
 E2: genset_ok / exhaustive minimum on every MinGenSet answer, setcover_ok / exhaustive minimum on every MinSetCover answer."""
 from fractions import Fraction as F
 import common, gen2, lpdump, e1misc, props
@@ -193,7 +193,7 @@ def mgs_engine(ctx):
         got = (tried, len(m.get_solution()) if r["ok"] else None)
         if (mt, mres) != got:
             ctx.count("E4_k_sequence", "disagreements")
-            report_corr(ctx, f"E4 correspondence broken: MinGenSet.solve tried {got}, MiscEnc.mgs_loop {(mt, mres)}", dict(rep, statuses=r["statuses"]))
+            report_corr(ctx, f"E4 correspondence broken: MinGenSet.solve tried {got}, MiscEnc.mgsm_loop {(mt, mres)}", dict(rep, statuses=r["statuses"]))
         else:
             ctx.count("E4_k_sequence", "agreements")
         # ---- E2
